@@ -155,7 +155,15 @@ class CallMixin:
             if isinstance(obj, type):
                 key = f"{obj.__module__}:{obj.__qualname__}.__init__"
                 if key in self.contracts:
-                    yield from self.call_contract(self.contracts[key], args, kwargs, st, sink, n)
+                    ci = self.contracts[key]
+                    if ci.self_type is not None and ci.returns is None:
+                        # a real __init__(self, ...): allocate, initialise, return the object
+                        me, st0 = self.fresh(ci.self_type, "new", st)
+                        self._arg_nodes = ([], {})
+                        for st1, _ in self.call_contract(ci, [me] + list(args), kwargs, st0, sink, n):
+                            yield st1, me
+                        return
+                    yield from self.call_contract(ci, args, kwargs, st, sink, n)
                     return
             raise Unsupported(f"call of {getattr(obj, '__qualname__', obj)!r} has neither contract nor rule", n)
         if f.ty is EXC:
@@ -353,6 +361,8 @@ class CallMixin:
                 self.check_callable_arg(bound[nm], pty, n)
             elif isinstance(pty, V):
                 out[nm] = bound[nm]
+            elif pty is not None and (bound[nm].ty.name, pty.name) in self.arg_hooks:
+                out[nm] = self.arg_hooks[(bound[nm].ty.name, pty.name)](self, bound[nm], self._cur_call_state)
             else:
                 out[nm] = self.coerce(bound[nm], pty, n) if pty is not None else bound[nm]
         return out
